@@ -1,19 +1,42 @@
 """C12 — a link and its complement are one edge.
 
-Four kinds of case, all decided on the real library against an independent text-level algebra (compl_text / norm /
+Six kinds of case, all decided on the real library against an independent text-level algebra (compl_text / norm /
 canon below):
   alg    one link a and a second link b (its complement / the same / one field changed / unrelated): complement()
          is right, involutive (claim codes MIDP=XH), does not mutate; the overlap's reference and query lengths are
          exchanged; is_same / is_complement / is_eql are repeatable, symmetric and equal to the text-level truth.
+  edit   two free-standing links a, b with specified overlaps (b the complement of a / a near miss of it which the first
+         edit repairs / the same link / a near miss of a) and a script of 1-4 IN-PLACE edits of the CIGAR of a or b
+         (CIGARs are lists of gfapy.CIGAR.Operation: set .length / .code of an operation, append, insert, pop, delete;
+         an edit is random, or undoes the previous one, or is the mirror image on the other link of the previous one so
+         that the two are complementary again).  Before the script (after the verdicts were asked once, or the links
+         hashed, or nothing) and after EVERY edit: the text of the line shows the edit, complement() is right for the
+         present text, and is_same / is_complement / is_eql are repeatable, symmetric and equal to the text-level truth
+         of the PRESENT texts (an answer may not depend on what the link looked like when it was last compared).
   graph  one link in a Gfa (levels 0-3, with or without S lines): adding its complement raises nothing and changes
          nothing; a link differing in one field (overlaps both specified) is accepted and stored as a further link.
+  gedit  one link stored in a Gfa (levels 0-3, with or without S lines); optionally its complement is added once; then
+         1-3 in-place edits of the CIGAR of the STORED link; after every edit adding the complement of the link as it
+         reads now raises nothing and changes nothing; at the end a link with one of the former overlaps (a different
+         edge now), in either form, is accepted and stored as a further link.
   path   one link stored in either form, one 2-segment path over it in either direction with the overlap given or `*`,
          every arrival order of the S/L/P lines: one link, not virtual, referenced by the path with the right flag.
   multi  a whole document: 1-3 pairs of segment ends (self-links and hairpins included), each joined by 1-3 PARALLEL
          links which differ only in their specified overlap (random, or a near miss of another one of the group:
          complemented, reversed, one length changed), each written in either form, some also in their other form as a
          further L line; 0-3 paths of 1-3 steps over these links in either direction, overlaps given or `*` per step;
-         S lines mostly present; random arrival order (or S,L,P blocks); levels 0-3.  Checked:
+         S lines mostly present; random arrival order (or S,L,P blocks); levels 0-3.
+         About 3 in 10 multi documents have the shape "paths first" (gen_multi_pending): 1-2 pairs of segment ends,
+         1-2 parallel links with overlaps which are not their own complement (the second one often the complement
+         CIGAR of the first), per pair two or three paths over the SAME edge in opposite (or equal) directions, the
+         first mostly with `*`, the others mostly with the overlap spelled for their own direction, and the L lines
+         (either form) mostly arriving after all the paths - so that the edge is first met as a placeholder link.
+         Checked:
+           - after EVERY line added (prefix of the document; the links may not have arrived yet): every step of every
+             path present is resolved to a link (real or placeholder) which, read in the direction recorded by the flag
+             (+ as it stands, - complemented), joins the oriented segments of the step and has the overlap of the step
+             (when both are specified); two steps which spell the same edge (specified overlaps, either form) are
+             resolved to one and the same link object;
            - the Gfa stores exactly one link per edge, in the form which arrived first; no placeholder link is left;
            - every step of every path is resolved (object identity) to THE stored link with that overlap from either
              form (to any link between the two segment ends for a `*` step), flag + iff the step is the stored form
@@ -26,13 +49,13 @@ canon below):
 
 Signatures ending in -star-path-first: the failing step has a specified overlap and was resolved while a placeholder
 link with overlap `*` (made for a `*` step of an earlier path / an earlier step of the same path) stood for the not yet
-arrived links between the same two segment ends.  On the unchanged library such a step stays bound to whichever link
-replaces that placeholder (wrong link when there are parallel links, wrong flag for a hairpin): a genuine
-arrival-order defect, reported, not hidden (about 1 case in 1000).
+arrived links between the same two segment ends (the arrival-order defect fixed in the library by 3768f43 / 1da03d4;
+the suffix is kept so that a regression there is told apart).
 
 NOT CHECKED: tags of links; a placeholder-overlap link sharing its segment ends with another link (what `*` is a
 duplicate of is not settled by the property); lookup through the private Gfa._search_link (only its public users:
-add_line and path resolution); GFA2 edges.
+add_line and path resolution); hash values of links (hash() is only called, to let the library memoise what it likes,
+before edits); in-place edits which leave an empty CIGAR; GFA2 edges.
 """
 import itertools, json
 from harness import lib
@@ -55,10 +78,16 @@ LEAN = {
     ],
 }
 RULE = ("random links over a 5-name pool (self-links, hairpins), CIGARs of 0-4 operations over MIDP=XH (10% also S/N, "
-        "outside the involution claim), four orientation pairs; graph cases add link/complement/different link; path "
-        "cases run every arrival order of S/L/P lines; multi cases are whole documents with 1-3 parallel links (differing "
-        "only in the overlap) per pair of segment ends, in either form, with 0-3 paths of 1-3 steps, in random arrival "
-        "order, then the complement of every stored link is added and a path over every stored link in each direction. "
+        "outside the involution claim), four orientation pairs; edit cases change the CIGAR of either link IN PLACE "
+        "(length/code of an operation, append/insert/pop/delete; random, undoing, or mirrored on the other link) and "
+        "re-ask every equivalence test after every edit; graph cases add link/complement/different link; gedit cases "
+        "edit the CIGAR of the stored link in place and add the complement of its present reading after every edit, then "
+        "a link with a former overlap; path cases run every arrival order of S/L/P lines; multi cases are whole "
+        "documents with 1-3 parallel links (differing only in the overlap) per pair of segment ends, in either form, "
+        "with 0-3 paths of 1-3 steps, in random arrival order (3 in 10: paths over one edge in both directions, `*` and "
+        "spelled overlaps which are not their own complement, arriving before the links), checked after every line "
+        "(flag/overlap of every resolved step consistent with the link it is bound to, one link object per edge), then "
+        "the complement of every stored link is added and a path over every stored link in each direction. "
         "Non-trivial: overlap specified with >=2 operations or a self-link, or a path or multi case.")
 ASSUMPTIONS = ["tags take no part in link identity (not modelled)",
                "the add-complement and path clauses are decided on the real library by the oracle and by the graph-model "
@@ -89,7 +118,7 @@ def gen_link(rng, claim_only=False):
 
 def gen_case(rng, tier, i):
     k = rng.random()
-    if k < 0.45:
+    if k < 0.37:
         a = gen_link(rng)
         r = rng.random()
         if r < 0.3:
@@ -103,7 +132,9 @@ def gen_case(rng, tier, i):
         else:
             b = gen_link(rng)
         return {"kind": "alg", "a": a, "b": b}
-    elif k < 0.65:
+    elif k < 0.45:
+        return gen_edit_case(rng)
+    elif k < 0.60:
         a = gen_link(rng, claim_only=True)
         d = list(a)
         j = rng.randrange(5)
@@ -112,12 +143,178 @@ def gen_case(rng, tier, i):
             if d[j] != a[j]:
                 break
         return {"kind": "graph", "a": a, "d": d, "vlevel": rng.choice([0, 1, 2, 3]), "segs_first": rng.random() < 0.7}
+    elif k < 0.65:
+        return gen_gedit_case(rng)
     elif k < 0.8:
         a = gen_link(rng, claim_only=True)
         return {"kind": "path", "a": a, "stored_compl": rng.random() < 0.5, "rev": rng.random() < 0.5,
                 "star": rng.random() < 0.4, "perm": rng.randrange(24)}
+    elif rng.random() < 0.3:
+        return gen_multi_pending(rng)
     else:
         return gen_multi(rng)
+
+
+# ------------------------------------------------------------- in-place edits of a CIGAR (text level)
+def apply_edit(ops, e):
+    """the list of (length, code) after the edit e; raises IndexError/ValueError when e does not apply"""
+    ops = list(ops)
+    if e[0] in ("len", "code", "del") and not 0 <= e[1] < len(ops):
+        raise IndexError(e)
+    if e[0] == "len":
+        ops[e[1]] = (e[2], ops[e[1]][1])
+    elif e[0] == "code":
+        ops[e[1]] = (ops[e[1]][0], e[2])
+    elif e[0] == "append":
+        ops.append((e[1], e[2]))
+    elif e[0] == "insert":
+        if not 0 <= e[1] <= len(ops):
+            raise IndexError(e)
+        ops.insert(e[1], (e[2], e[3]))
+    elif e[0] == "pop":
+        ops.pop()
+    elif e[0] == "del":
+        del ops[e[1]]
+    else:
+        raise ValueError(e)
+    if not ops:
+        raise IndexError(e)     # an empty CIGAR is not generated
+    return ops
+
+
+def inverse_edit(ops, e):
+    """the edit which undoes e (e applied to ops)"""
+    if e[0] == "len":
+        return ["len", e[1], ops[e[1]][0]]
+    if e[0] == "code":
+        return ["code", e[1], ops[e[1]][1]]
+    if e[0] == "append":
+        return ["pop"]
+    if e[0] == "insert":
+        return ["del", e[1]]
+    if e[0] == "pop":
+        return ["append", ops[-1][0], ops[-1][1]]
+    return ["insert", e[1], ops[e[1]][0], ops[e[1]][1]]
+
+
+def mirror_edit(n_other, e):
+    """the edit of the OTHER link (n_other operations) which keeps it the complement, when it was before e"""
+    if e[0] == "len":
+        return ["len", n_other - 1 - e[1], e[2]]
+    if e[0] == "code":
+        return ["code", n_other - 1 - e[1], FLIP.get(e[2], e[2])]
+    if e[0] == "append":
+        return ["insert", 0, e[1], FLIP.get(e[2], e[2])]
+    if e[0] == "insert":
+        return ["insert", n_other - e[1], e[2], FLIP.get(e[3], e[3])]
+    if e[0] == "pop":
+        return ["del", 0]
+    return ["del", n_other - 1 - e[1]]
+
+
+def gen_edit(rng, ops):
+    """a random in-place edit which applies to ops and changes it"""
+    for _ in range(50):
+        r = rng.random()
+        j = rng.randrange(len(ops))
+        if r < 0.4:
+            e = ["len", j, rng.choice([0, 1, 2, 3, 4, 5, 7, 10, 12])]
+        elif r < 0.6:
+            e = ["code", j, rng.choice(CODES_CLAIM)]
+        elif r < 0.72:
+            e = ["append", rng.choice([1, 2, 3, 5]), rng.choice(CODES_CLAIM)]
+        elif r < 0.82:
+            e = ["insert", rng.randrange(len(ops) + 1), rng.choice([1, 2, 3, 5]), rng.choice(CODES_CLAIM)]
+        elif r < 0.92:
+            e = ["pop"]
+        else:
+            e = ["del", j]
+        try:
+            if apply_edit(ops, e) != list(ops) and len(apply_edit(ops, e)) <= 6:
+                return e
+        except (IndexError, ValueError):
+            pass
+    return ["append", 1, "M"]
+
+
+def gen_rich_cigar(rng):
+    """a specified CIGAR, mostly of >= 2 operations"""
+    c = gen_spec_cigar(rng)
+    for _ in range(3):
+        if len(ops_of(c)) >= 2:
+            break
+        c = gen_spec_cigar(rng)
+    return c
+
+
+def gen_edit_case(rng):
+    a = gen_link(rng, claim_only=True)
+    a[4] = gen_rich_cigar(rng)
+    r = rng.random()
+    script = []
+    if r < 0.45:
+        b = compl_text(a)
+    elif r < 0.75:
+        # a near miss of the complement; the first edit (mostly) repairs it
+        b = compl_text(a)
+        o = ops_of(b[4])
+        e0 = gen_edit(rng, o)
+        b[4] = cigar_text(apply_edit(o, e0))
+        if rng.random() < 0.8:
+            script.append(["b"] + inverse_edit(o, e0))
+    elif r < 0.85:
+        b = list(a)
+    else:
+        b = list(a)
+        o = ops_of(b[4])
+        b[4] = cigar_text(apply_edit(o, gen_edit(rng, o)))
+    # replay the script so far, then extend it
+    cur = {"a": ops_of(a[4]), "b": ops_of(b[4])}
+    last = None          # (who, edit, ops of who before the edit)
+    for st in script:
+        last = (st[0], st[1:], cur[st[0]])
+        cur[st[0]] = apply_edit(cur[st[0]], st[1:])
+    n = rng.choice([1, 2, 2, 3, 4])
+    while len(script) < n:
+        r = rng.random()
+        e = None
+        if last is not None and r < 0.3:
+            who, e = last[0], inverse_edit(last[2], last[1])          # undo
+            nxt_last = None
+        elif last is not None and r < 0.55:
+            who = "a" if last[0] == "b" else "b"                       # mirror image on the other link
+            e = mirror_edit(len(cur[who]), last[1])
+            nxt_last = None
+        if e is not None:
+            try:
+                apply_edit(cur[who], e)
+            except (IndexError, ValueError):
+                e = None
+        if e is None:
+            who = "b" if rng.random() < 0.65 else "a"
+            e = gen_edit(rng, cur[who])
+            nxt_last = (who, e, cur[who])
+        cur[who] = apply_edit(cur[who], e)
+        script.append([who] + e)
+        last = nxt_last
+    return {"kind": "edit", "a": a, "b": b, "script": script, "prime": rng.choice([0, 0, 1, 2])}
+
+
+def gen_gedit_case(rng):
+    a = gen_link(rng, claim_only=True)
+    a[4] = gen_rich_cigar(rng)
+    cur = ops_of(a[4])
+    edits, last = [], None
+    for _ in range(rng.choice([1, 1, 2, 3])):
+        if last is not None and rng.random() < 0.3:
+            e = inverse_edit(last[1], last[0]); nxt = None
+        else:
+            e = gen_edit(rng, cur); nxt = (e, cur)
+        cur = apply_edit(cur, e)
+        edits.append(e)
+        last = nxt
+    return {"kind": "gedit", "a": a, "edits": edits, "prime": rng.random() < 0.75, "former_compl": rng.random() < 0.5,
+            "vlevel": rng.choice([0, 1, 2, 3]), "segs_first": rng.random() < 0.7}
 
 
 def gen_spec_cigar(rng):
@@ -210,6 +407,92 @@ def gen_multi(rng):
     return {"kind": "multi", "a": edges[0], "lines": lines, "vlevel": rng.choice([0, 1, 1, 2, 3])}
 
 
+def gen_asym_cigar(rng):
+    """a specified CIGAR which is not its own complement (so that the two forms of the link differ in the overlap)"""
+    for _ in range(30):
+        c = gen_rich_cigar(rng)
+        if cigar_compl_text(c) != cigar_text(ops_of(c)):
+            return c
+    return "2M1D3M"
+
+
+def gen_multi_pending(rng):
+    """A GFA1 document of the shape "paths first": 1-2 pairs of segment ends, 1-2 parallel links per pair with overlaps
+    which are (mostly) not their own complement; per pair 2-3 paths over the same edge, in opposite or equal directions,
+    the first mostly with `*`, the others mostly with the overlap spelled for their own direction; the L lines (either
+    form) mostly arrive after all the paths, so that the edge is first met as a placeholder link which a later step,
+    walking it forwards or reversed, gives its overlap to."""
+    names = rng.sample(NAMES, rng.choice([2, 2, 3]))
+    groups, pairs_seen = [], set()
+    for _ in range(rng.choice([1, 1, 2])):
+        for _ in range(20):
+            f = rng.choice(names)
+            t = rng.choice(names) if rng.random() > 0.15 else f
+            pair = [f, rng.choice("+-"), t, rng.choice("+-")]
+            if pairkey(pair) not in pairs_seen:
+                break
+        else:
+            continue
+        pairs_seen.add(pairkey(pair))
+        edges = [pair + [gen_asym_cigar(rng) if rng.random() < 0.85 else gen_spec_cigar(rng)]]
+        if rng.random() < 0.25:
+            for _ in range(10):
+                # the parallel link: often the one whose overlap is the complement CIGAR of the first one's
+                e = pair + [cigar_compl_text(edges[0][4]) if rng.random() < 0.5 else gen_asym_cigar(rng)]
+                if canon(e) != canon(edges[0]):
+                    edges.append(e)
+                    break
+        groups.append(edges)
+    edges = [e for g in groups for e in g]
+
+    def path_over(e, form_compl, star):
+        t = compl_text(e) if form_compl else list(e)
+        steps = [t]
+        while len(steps) < 3 and rng.random() < 0.2:
+            last = steps[-1]
+            nxt = [x for y in edges for x in (list(y), compl_text(y)) if x[0] == last[2] and x[1] == last[3]]
+            if not nxt:
+                break
+            steps.append(rng.choice(nxt))
+        ov = ["*" if (star if k == 0 else rng.random() < 0.3) else st[4] for k, st in enumerate(steps)]
+        if all(o == "*" for o in ov):
+            ov = ["*"]
+        segs = ["%s%s" % (steps[0][0], steps[0][1])] + ["%s%s" % (st[2], st[3]) for st in steps]
+        return "%s\t%s" % (",".join(segs), ",".join(ov))
+
+    P = []
+    for g in groups:
+        e = rng.choice(g)
+        d = rng.random() < 0.5
+        P.append(path_over(e, d, rng.random() < 0.75))
+        P.append(path_over(e, (not d) if rng.random() < 0.75 else d, rng.random() < 0.15))
+        if rng.random() < 0.4:
+            P.append(path_over(rng.choice(g), rng.random() < 0.5, rng.random() < 0.3))
+    if rng.random() < 0.3:
+        rng.shuffle(P)
+    P = ["P\tpp%d\t%s" % (i, x) for i, x in enumerate(P)]
+    L = []
+    for e in edges:
+        w = compl_text(e) if rng.random() < 0.5 else list(e)
+        L.append(ltext(w))
+        if rng.random() < 0.15:
+            L.append(ltext(compl_text(w)))
+    rng.shuffle(L)
+    used = sorted({n for e in edges for n in (e[0], e[2])})
+    S = ["S\t%s\t*" % n for n in used if rng.random() < 0.95]
+    r = rng.random()
+    if r < 0.6:
+        lines = S + P + L
+    elif r < 0.8:
+        rest = P + L
+        rng.shuffle(rest)
+        lines = S + rest
+    else:
+        lines = S + P + L
+        rng.shuffle(lines)
+    return {"kind": "multi", "shape": "pending", "a": edges[0], "lines": lines, "vlevel": rng.choice([0, 1, 1, 2, 3])}
+
+
 # ------------------------------------------------------------- independent text-level algebra
 FLIP = {"I": "D", "D": "I", "S": "D", "N": "I"}
 
@@ -278,6 +561,8 @@ def tags(case):
         for l in links:
             per.setdefault(pairkey(l), set()).add(canon(l))
         t = ["multi", "parallel%d" % max(len(v) for v in per.values()), "paths" if paths else "nopaths"]
+        if case.get("shape"):
+            t.append(case["shape"])
     if case["kind"] == "alg":
         t.append("rel_compl" if norm(case["b"]) == norm(compl_text(a)) else ("rel_same" if norm(case["b"]) == norm(a) else "rel_other"))
     return t
@@ -357,6 +642,10 @@ def oracle(case):
                 F.append("different-link-merged: %r then %r" % (a, d))
     elif case["kind"] == "multi":
         F.extend(oracle_multi(gfapy, case))
+    elif case["kind"] == "edit":
+        F.extend(oracle_edit(gfapy, case))
+    elif case["kind"] == "gedit":
+        F.extend(oracle_gedit(gfapy, case))
     else:  # path
         stored = compl_text(a) if case["stored_compl"] else a
         trav = compl_text(a) if case["rev"] else a
@@ -390,6 +679,125 @@ def oracle(case):
                 F.append("path-link-left-virtual: %r" % (list(order),))
             if [str(x) for x in L.paths] != [str(p)]:
                 F.append("link-paths-backref-wrong: %r" % (list(order),))
+    return F
+
+
+# ------------------------------------------------------------- in-place edits of the CIGAR of a link
+def edit_in_place(gfapy, line, e):
+    """applies the edit e to the CIGAR object of the link `line`, in place (public list / Operation interface)"""
+    ov = line.overlap
+    if e[0] == "len":
+        ov[e[1]].length = e[2]
+    elif e[0] == "code":
+        ov[e[1]].code = e[2]
+    elif e[0] == "append":
+        ov.append(gfapy.CIGAR.Operation(e[1], e[2]))
+    elif e[0] == "insert":
+        ov.insert(e[1], gfapy.CIGAR.Operation(e[2], e[3]))
+    elif e[0] == "pop":
+        ov.pop()
+    elif e[0] == "del":
+        del ov[e[1]]
+    else:
+        raise ValueError(e)
+
+
+def oracle_edit(gfapy, case):
+    F = []
+    txt = {"a": list(case["a"]), "b": list(case["b"])}
+    obj = {"a": gfapy.Line(ltext(txt["a"])), "b": gfapy.Line(ltext(txt["b"]))}
+
+    def verdicts(when):
+        a, b, la, lb = txt["a"], txt["b"], obj["a"], obj["b"]
+        for who in "ab":
+            got = str(obj[who]).split("\t")[1:6]
+            if norm(got) != norm(txt[who]):
+                F.append("edit-not-shown-by-the-line: %s: link %s reads %r, expected %r" % (when, who, got, txt[who]))
+                return False
+            gc = str(obj[who].complement()).split("\t")[1:6]
+            if norm(gc) != norm(compl_text(txt[who])):
+                F.append("edit-complement-wrong: %s: complement of %r is %r" % (when, txt[who], gc))
+        for name, truth in (("is_same", norm(a) == norm(b)),
+                            ("is_complement", norm(a) == norm(compl_text(b))),
+                            ("is_eql", norm(a) == norm(b) or norm(a) == norm(compl_text(b)))):
+            r1 = getattr(la, name)(lb); r3 = getattr(lb, name)(la); r2 = getattr(la, name)(lb); r4 = getattr(lb, name)(la)
+            if bool(r1) != bool(r2) or bool(r3) != bool(r4):
+                F.append("edit-%s-not-repeatable: %s: a=%r b=%r: a.%s(b) %r then %r, b.%s(a) %r then %r"
+                         % (name, when, a, b, name, r1, r2, name, r3, r4))
+            if bool(r1) != bool(r3):
+                F.append("edit-%s-not-symmetric: %s: a=%r b=%r: a.%s(b) is %r, b.%s(a) is %r"
+                         % (name, when, a, b, name, r1, name, r3))
+            elif bool(r1) != truth:
+                F.append("edit-%s-wrong: %s: a=%r b=%r gives %r, the texts say %r" % (name, when, a, b, r1, truth))
+        return not F
+
+    if case["prime"] == 0:
+        if not verdicts("before the edits (start a=%r b=%r)" % (case["a"], case["b"])):
+            return F
+    elif case["prime"] == 1:
+        hash(obj["a"]); hash(obj["b"])
+    done = []
+    for st in case["script"]:
+        who, e = st[0], st[1:]
+        edit_in_place(gfapy, obj[who], e)
+        txt[who][4] = cigar_text(apply_edit(ops_of(txt[who][4]), e))
+        done.append(st)
+        if not verdicts("start a=%r b=%r, after the in-place edits %r" % (case["a"], case["b"], done)):
+            return F
+    return F
+
+
+def oracle_gedit(gfapy, case):
+    F = []
+    a = case["a"]
+    g = gfapy.Gfa(vlevel=case["vlevel"], version="gfa1")
+    if case["segs_first"]:
+        for n in sorted({a[0], a[2]}):
+            g.add_line("S\t%s\t*" % n)
+    g.add_line(ltext(a))
+    stored = g.dovetails[0]
+    cur = list(a)
+    history = []
+
+    def add_complement(when):
+        got = str(stored).split("\t")[1:6]
+        if norm(got) != norm(cur):
+            F.append("gedit-not-shown-by-the-line: %s: the stored link reads %r, expected %r" % (when, got, cur))
+            return False
+        t0 = str(g); n0 = len(g.dovetails)
+        r = lib.outcome(g.add_line, ltext(compl_text(cur)))
+        if r[0] != "ok":
+            F.append("gedit-add-complement-raises: %s: stored %r, adding its complement %r: %s %s"
+                     % (when, cur, compl_text(cur), r[0], r[1]))
+        elif str(g) != t0 or len(g.dovetails) != n0 or g.dovetails[0] is not stored:
+            F.append("gedit-add-complement-adds: %s: stored %r, adding its complement %r changed the Gfa"
+                     % (when, cur, compl_text(cur)))
+        return not F
+
+    if case["prime"] and not add_complement("link %r just added" % (a,)):
+        return F
+    done = []
+    for e in case["edits"]:
+        history.append(list(cur))
+        edit_in_place(gfapy, stored, e)
+        cur[4] = cigar_text(apply_edit(ops_of(cur[4]), e))
+        done.append(e)
+        if not add_complement("link %r added%s, its CIGAR edited in place by %r"
+                              % (a, " and its complement added" if case["prime"] else "", done)):
+            return F
+    # a link with a former overlap is a different edge now: accepted, stored as a further link
+    for old in history:
+        if canon(old) != canon(cur):
+            d = compl_text(old) if case["former_compl"] else old
+            n0 = len(g.dovetails)
+            r = lib.outcome(g.add_line, ltext(d))
+            if r[0] != "ok":
+                F.append("gedit-different-link-refused: stored %r (was %r, edited in place by %r), adding %r: %s %s"
+                         % (cur, a, done, d, r[0], r[1]))
+            elif len(g.dovetails) != n0 + 1:
+                F.append("gedit-different-link-merged: stored %r (was %r, edited in place by %r), adding %r"
+                         % (cur, a, done, d))
+            break
     return F
 
 
@@ -477,13 +885,46 @@ def oracle_multi(gfapy, case):
     edges, steps = truth
     F = []
     g = gfapy.Gfa(vlevel=case["vlevel"], version="gfa1")
-    for l in lines:
-        r = lib.outcome(g.add_line, l)
-        if r[0] != "ok":
-            return ["multi-add-raises: %r: adding %r: %s %s" % (lines, l, r[0], r[1])]
 
     def fields(L):
         return str(L).split("\t")[1:6]
+
+    def prefix_check(n):
+        """after the first n lines: every resolved step agrees with the link it is bound to, read as the flag says;
+        steps which spell the same edge are bound to one link object"""
+        seen = {}
+        for name, sts in parse_doc(lines[:n])[1]:
+            p = g.line(name)
+            if p is None or len(p.links) != len(sts):
+                continue        # reported by the checks of the whole document
+            for k, st in enumerate(sts):
+                ol = p.links[k]
+                fl = fields(ol.line)
+                rd = fl if ol.orient == "+" else compl_text(fl)
+                if list(rd[:4]) != list(st[:4]) or (st[4] != "*" and rd[4] != "*" and key(rd) != key(st)):
+                    sfx = "-star-path-first" if (st[4] != "*" and star_path_first(lines, name, k, st)) else ""
+                    return ["multi-prefix-step-disagrees-with-link%s: %r: after these lines step %d (%s) of path %s is bound "
+                            "with flag %s to the link %r (virtual: %s), which read that way is %s"
+                            % (sfx, lines[:n], k, " ".join(st), name, ol.orient, " ".join(fl), bool(ol.line.virtual),
+                               " ".join(rd))]
+                if st[4] != "*":
+                    c = canon(st)
+                    if c in seen and seen[c][0] is not ol.line:
+                        return ["multi-prefix-one-edge-two-links: %r: after these lines step %d (%s) of path %s is bound to "
+                                "the link %r, step %d of path %s, which spells the same edge, to the link %r"
+                                % (lines[:n], k, " ".join(st), name, " ".join(fl), seen[c][2], seen[c][1],
+                                   " ".join(fields(seen[c][0])))]
+                    seen.setdefault(c, (ol.line, name, k))
+        return []
+
+    for n, l in enumerate(lines):
+        r = lib.outcome(g.add_line, l)
+        if r[0] != "ok":
+            return ["multi-add-raises: %r: adding %r: %s %s" % (lines, l, r[0], r[1])]
+        if l[0] in "LP":
+            bad = prefix_check(n + 1)
+            if bad:
+                return bad
 
     def stored_objects():
         real = [L for L in g.dovetails if not L.virtual]
